@@ -209,6 +209,7 @@ def gen_case(rng, i, nprocs):
     p.close()
     p.emit("*", "barrier")
     p.emit(0, "snapshot", path="s:@OUT@/c05.nc", tag="final")
+    p.emit("*", "balance", final=1)
     return Case("c05_%05d" % i, nprocs, p.s.lines, meta={"expect": p.expect, "fm": p.fm, "feat": p.feat, "nprobe": p.nprobe})
 
 
